@@ -9,6 +9,9 @@ def roundtrip(c):
     import ghedesigner.manager as M
     from ghedesigner.validate import validate_input_file
     cfg = e2e.materialise(c)
+    if c.get("_years_of_loads", 1) > 1:
+        yl = cfg["loads"]["ground_loads"]
+        cfg["loads"]["ground_loads"] = [round(v * (1.0 + 0.01 * k), 3) for k in range(c["_years_of_loads"]) for v in yl]
     tmp = Path(tempfile.mkdtemp(prefix="verif_c17_"))
     out = {}
     try:
